@@ -522,6 +522,7 @@ package server
 //@   requires ds != nil && ds.store != nil && txn != nil && txnTime >= 0
 //@   requires forall i int :: 0 <= i && i < len(entities) ==> entities[i] != nil
 //@   requires ds.fullSyncStarted ==> ds.fullSyncSeen != nil
+//@   frame-assumed preserves Dataset.ID, Dataset.InternalID, Dataset.store, Store.NamespaceManager, Store.datasets
 //@   safe nilmap
 //@   at call assertIDForURI#1 before
 //@     ghost firstG := false
@@ -594,13 +595,12 @@ package server
 //@   pure
 // updating another dataset's counter stores the meta entity through core.Dataset's own StoreEntities, which takes
 // core.Dataset's write lock: the caller must not hold it already (Go mutexes are not reentrant)
-//@ assumed (*Dataset).updateDataset
-//@   requires [C05:core-dataset-lock-free-when-another-datasets-counter-is-updated] ds.ID != "core.Dataset" ==> (forall d *Dataset :: has($held, addrOf(d.WriteLock)) ==> d.ID != "core.Dataset")
-//@   preserves Dataset.*, Store.*
+// (contract of updateDataset: see "the per-dataset items counter" below)
 
 //@ unit (*Dataset).StoreEntities
 //@   prop C04 C05 C19
-//@   requires [callers-hold-no-lock-at-or-above-dataset-level] forall l int :: has($held, l) ==> lockLevel(l) < 2
+//@   requires [callers-hold-no-lock-above-dataset-level] forall l int :: has($held, l) ==> lockLevel(l) <= 2
+//@   requires [only-core-dataset-is-written-while-another-datasets-write-lock-is-held] forall d *Dataset :: has($held, addrOf(d.WriteLock)) ==> ds.ID == "core.Dataset" && d.ID != "core.Dataset"
 //@   ghost idsCommittedG bool = false
 //@   ghost committedG bool = false
 //@   ghost txnG int = 0
@@ -657,7 +657,7 @@ package server
 //@ assumed (*DsManager).NewDatasetEntity
 //@   pure
 //@ assumed (*Store).GetEntity
-//@   preserves Store.deletedDatasets, map[uint32]bool, DsManager.*
+//@   preserves Store.deletedDatasets, map[uint32]bool, DsManager.*, Dataset.*
 //@ assumed (*bus.EventBus).UnregisterTopic
 //@   pure
 //@ assumed (server.EventBus).UnregisterTopic
@@ -799,6 +799,40 @@ package server
 //@     assert [C04:next-id-persisted-before-the-dataset-record] idPersistedG && ds.InternalID == freshG
 //@   at call storeEntity#1 before
 //@     assert [C19:meta-entity-stored-in-core-dataset-after-the-record] $valuesStored == old($valuesStored) + 2
+
+// the per-dataset items counter kept in the dataset's meta entity in core.Dataset: after a batch with n first-seen ids
+// the counter is the previous value plus n (a missing counter starts at n); the meta entity is looked up in core.Dataset
+// only and written back through the dataset registered as "core.Dataset". (The error of that write is dropped by the
+// code: see DESIGN.md, D15 - not claimed.) For core.Dataset itself: a changed public-namespace list is written to the
+// named dataset's record under that dataset's own key.
+//@ assumed fmt.Sprintf
+//@   pure
+//@ unit (*Dataset).updateDataset
+//@   prop C19 C14
+//@   ghost hadG bool = false
+//@   ghost wasFloatG bool = false
+//@   ghost truncG int = 0
+//@   requires ds != nil
+//@   requires-inv [datasets-are-constructed-with-their-store] ds != nil ==> ds.store != nil && ds.store.NamespaceManager != nil
+//@   requires [callers-hold-no-lock-above-the-dataset-level] forall l int :: has($held, l) ==> lockLevel(l) <= 2
+//@   requires [C05:core-dataset-lock-free-when-another-datasets-counter-is-updated] ds.ID != "core.Dataset" ==> (forall d *Dataset :: has($held, addrOf(d.WriteLock)) ==> d.ID != "core.Dataset")
+//@   frame-assumed preserves Dataset.*, Store.*
+//@   at call GetEntity#1 before
+//@     assert [C19:meta-entity-looked-up-in-core-dataset-only] len(datasets) == 1 && datasets[0] == "core.Dataset" && mergePartials
+//@   at call GetEntity#1
+//@     assume $result0 != nil ==> $result0.Properties != nil
+//@     ghost hadG := $result0 != nil && has($result0.Properties, dsInfo.ItemsKey)
+//@     ghost wasFloatG := $result0 != nil && typeof($result0.Properties[dsInfo.ItemsKey]) == typeid("float64")
+//@     ghost truncG := trunc(cast($result0.Properties[dsInfo.ItemsKey], "float64"))
+//@   at call Load#2 before
+//@     assert [C19:items-counter-grows-by-the-number-of-first-seen-ids] typeof(dsEntity.Properties[dsInfo.ItemsKey]) == typeid("int64") && cast(dsEntity.Properties[dsInfo.ItemsKey], "int64") == (hadG ? (wasFloatG ? truncG + newItemCount : 0) : newItemCount)
+//@     assert [C19:counter-written-through-the-core-dataset-registry-entry] cast(key, "string") == "core.Dataset"
+//@   at call Load#2
+//@     assume $result1 ==> typeof($result0) == typeid("*server.Dataset") && (cast($result0, "*server.Dataset").fullSyncStarted ==> cast($result0, "*server.Dataset").fullSyncSeen != nil) && cast($result0, "*server.Dataset").store != nil
+//@   at call StoreEntities#1 before
+//@     assert [C19:updated-meta-entity-is-the-one-stored] len($arg1) == 1 && $arg1[0] == dsEntity
+//@   at call storeValue#1 before
+//@     assert [C14:changed-namespace-list-written-to-the-named-datasets-own-record] recordName(key) == dataset.ID && value == jsonData
 
 // renaming a dataset: the record moves from the key of the old name to the key of the new name (one transaction, see
 // moveValue) and carries the new name; the registry is updated only after the record moved; the meta entity of the old
